@@ -143,6 +143,11 @@ def one_point(cx, api, size, injector, point, preexisting, old, ref_new, ref_pla
             f.write(old)
     if injector == "fsize":
         st, msg = run_save(api, size, "B", dest, fsize=point)
+    elif injector == "stale-tmp":
+        # no fault now, but an earlier save died and left its temporary sibling (<name>.<ext>tmp) behind
+        with open(dest + "tmp", "wb") as f:
+            f.write(b"\xaa" * (len(ref_new) + 7001 if point == "longer" else 10))
+        st, msg = run_save(api, size, "B", dest)
     else:
         op, at, err, short = point
         env = {"LD_PRELOAD": SHIM, "UVF_PATH_SUBSTR": d, "UVF_OP": op, "UVF_FAIL_AT": str(at), "UVF_ERRNO": err}
@@ -183,6 +188,8 @@ def enumerate_faults(cx, tier):
             for j in range(nshim):
                 err = ["ENOSPC", "EIO", "EDQUOT"][j % 3]
                 jobs.append((api, size, "shim", ("write", j, err, j % 2 == 1), True, old, new, plain))
+            for k, which in enumerate(("longer", "shorter")):
+                jobs.append((api, size, "stale-tmp", which, k == 0, old, new, plain))
             jobs.append((api, size, "shim", ("rename", 0, "EIO", False), True, old, new, plain))
             jobs.append((api, size, "shim", ("open", 0, "ENOSPC", False), True, old, new, plain))
             jobs.append((api, size, "shim", ("open", 0, "ENOSPC", False), False, old, new, plain))
@@ -277,8 +284,8 @@ def check(work, tier, seed):
 def replay(work, rp):
     cx = Ctx(work, 0)
     api, size = rp.get("api", "xlsx"), rp.get("size", "small")
-    if rp.get("injector") in ("fsize", "shim"):
+    if rp.get("injector") in ("fsize", "shim", "stale-tmp"):
         old, new, plain = reference(cx, api, size)
-        pt = rp["point"] if rp["injector"] == "fsize" else tuple(rp["point"])
+        pt = tuple(rp["point"]) if rp["injector"] == "shim" else rp["point"]
         one_point(cx, api, size, rp["injector"], pt, rp.get("preexisting", True), old, new, plain, 0)
     return cx
